@@ -275,6 +275,17 @@ class C08(Prop):
             h.meta["sig"] = sig
             h.meta["deg"] = deg
             hs.append(h)
+        # every degree on both types in f32 with LONG calls (read positions in the thousands) and full-band noise: the offset
+        # handed to the kernel must keep the precision of the f64 position however far into the chunk the frame lies
+        for kind in ("fastin", "fastout"):
+            for deg in range(5):
+                ratio = rng.choice([1.2, 48000 / 44100, 0.9, 1.37, 44100 / 48000])
+                chunk = rng.choice([2048, 4096, 3000])
+                sig = "r%d" % rng.randint(0, 999)
+                line = f"f32 {kind} {hx(ratio)} {hx(1.0)} {deg} {chunk} 1"
+                ops = [f"0 new {line}"] + [f"0 proc - n m {sig} dump"] * 3
+                hs.append(History(ops, {"cfg": line, "kind": kind, "ty": "f32", "feats": ["proc", "long-calls"], "sig": sig,
+                                        "deg": deg, "valid": True}))
         return hs
 
     def distinct_key(self, h):
@@ -321,7 +332,8 @@ class C08(Prop):
                     ys.append(Fraction(val))
                 want = ys[0] if width_ == 1 else lagrange_at([Fraction(x) for x in xs], ys, tau)
                 scale = max([1.0] + [abs(float(y)) for y in ys])
-                eps = 2.0 ** -18 if info.ty == "f32" else 2.0 ** -40
+                # f32: measured <= 2.4 ulp of the window's largest sample on the unchanged tree (long calls included); 32 allowed
+                eps = 0.8 * 2.0 ** -23 if info.ty == "f32" else 2.0 ** -40
                 # the position of frame jj is the sum of jj steps (the carry between calls keeps what has accumulated), each
                 # rounded at the magnitude of the input span of one call; the value moves by at most ~4*scale per input frame
                 span = max(1, (fr["g"][1] if fr["g"] else 1))
@@ -329,6 +341,8 @@ class C08(Prop):
                 # ties of the Nearest kernel: an instant that is (numerically) an integer may legitimately fall either way
                 if width_ == 1 and abs(tau - round(tau)) < Fraction(1, 10 ** 6):
                     continue
+                if os.environ.get("RV_C08_MEASURE") and info.ty == "f32":
+                    C08.worst = max(getattr(C08, "worst", 0.0), float(abs(Fraction(v) - want)) / scale)
                 if abs(Fraction(v) - want) > eps * 40 * scale + pos_tol:
                     out.append(viol("C08", h, k, info, "not-the-interpolant-through-the-nearest-samples",
                                     {"frame": jj, "tau": float(tau), "got": v, "want": float(want), "window": xs}))
@@ -481,7 +495,7 @@ class C10(Prop):
             ops.append("0 reset")
             ops.append(cfg.new(1))
             post = gen.gen_valid_history(rng, cfg, rng.randint(3, 15), ratio_changes="calm",
-                                         masks=rng.choice(["const", "none"]))
+                                         masks=rng.choice(["const", "none", "vary"]))
             pairs = 0
             for op in post.ops[1:]:
                 ops.append(op)
@@ -490,6 +504,28 @@ class C10(Prop):
             h = History(ops, {"cfg": cfg.line, "kind": cfg.kind, "ty": cfg.ty, "feats": sorted(feats),
                               "reset_at": reset_at, "pairs": pairs})
             hs.append(h)
+        # every type: loud audio, reset(), then calls that leave a channel out followed by calls that use it again -- per-channel
+        # storage that reset() did not clear shows when the channel comes back
+        for i in range(2 * len(gen.ALL)):
+            kind = gen.ALL[i % len(gen.ALL)]
+            nch = rng.randint(2, 3)
+            cfg = gen.gen_cfg(rng, kinds=[kind], nch=nch, max_chunk=300)
+            sg = "r%d" % rng.randint(0, 999)
+            ops = [cfg.new(0)] + [f"0 proc - n m {sg}"] * rng.randint(1, 14)
+            reset_at = len(ops)
+            ops += ["0 reset", cfg.new(1)]
+            pairs = 0
+            for _ in range(rng.randint(1, 3)):
+                m = ["1"] * nch
+                m[rng.randrange(nch)] = "0"
+                m = "".join(m)
+                for _ in range(rng.randint(1, 3)):
+                    ops += [f"0 proc {m} n m {sg}", f"1 proc {m} n m {sg}"]
+                for _ in range(2):
+                    ops += [f"0 proc - n m {sg}", f"1 proc - n m {sg}"]
+                pairs += 3
+            hs.append(History(ops, {"cfg": cfg.line, "kind": kind, "ty": cfg.ty, "feats": ["failed", "channel-returns-after-reset"],
+                                    "reset_at": reset_at, "pairs": pairs}))
         # user-implemented interpolators of arbitrary (odd) length: reset() must restore the constructor's read position
         for i in range(max(8, self.n // 8)):
             kind = rng.choice(["sincin", "sincout"])
@@ -902,7 +938,7 @@ class C16(Prop):
                 c = rng.random()
                 dy = " dyn" if rng.random() < 0.3 else ""
                 if c < 0.3:
-                    a, b, f = f"procw {mask} n {sg}{dy}", f"proc {mask} n n {sg}", "process"
+                    a, b, f = f"procw {mask} n {sg}{dy}", f"proc {mask} n m {sg}", "process"
                 elif c < 0.4:
                     k = rng.randint(0, 6)
                     em = " em" if mask != "-" and rng.random() < 0.6 else ""
@@ -917,9 +953,9 @@ class C16(Prop):
                     a, b, f = f"part {mask} none m {sg}{dy}", f"proc {mask} n m z", "partial-none"
                 elif c < 0.74:
                     k = rng.randint(0, 6)
-                    a, b, f = f"partw {mask} p{k} {sg}{dy}", f"proc {mask} n n {sg} zl=p{k}", "process_partial"
+                    a, b, f = f"partw {mask} p{k} {sg}{dy}", f"proc {mask} n m {sg} zl=p{k}", "process_partial"
                 elif c < 0.8:
-                    a, b, f = f"partw {mask} none {sg}{dy}", f"proc {mask} n n z", "process_partial-none"
+                    a, b, f = f"partw {mask} none {sg}{dy}", f"proc {mask} n m z", "process_partial-none"
                 elif c < 0.9:
                     a, b, f = f"proc {mask} n m {sg} dyn", f"proc {mask} n m {sg}", "dyn-forward"
                 elif c < 0.93:
@@ -962,6 +998,29 @@ class C16(Prop):
                 ops += ["0 procw - n r5", "1 proc - n m r5"]
             hs.append(History(ops, {"cfg": line, "kind": "fftin", "ty": ty, "feats": ["process", "fftin-alignments"],
                                     "pairs": pairs}))
+        # asynchronous types at sizes where chunk*ratio (fixed input) or chunk/ratio (fixed output) is an EXACT integer for a
+        # ratio that is not a binary fraction: the size estimates sit on a floor/ceil boundary there, and the wrappers size their
+        # buffers with the getters while the core call checks against its own evaluation of the same expression
+        decs = [(13, 10), (11, 10), (7, 10), (9, 10), (17, 10), (23, 10), (3, 10), (441, 80), (441, 160), (441, 320)]
+        for kind in gen.ASYNC:
+            for num, den in decs:
+                for _ in range(3 if self.tier == "quick" else 12):
+                    unit = den if kind.endswith("in") else num
+                    chunk = unit * rng.randint(1, max(1, 2000 // unit))
+                    cfg = gen.gen_cfg(rng, kinds=[kind], max_chunk=4096, nch=rng.choice([1, 2]), sinc_lens=[8, 16])
+                    p = cfg.line.split()
+                    p[2] = hx(num / den)
+                    p[5 if kind.startswith("fast") else 9] = str(chunk)
+                    line = " ".join(p)
+                    ops = [f"0 new {line}", f"1 new {line}"]
+                    pairs = []
+                    for a, b in ((f"procw - n r3", "proc - n m r3"), ("partw - p3 r3", "proc - n m r3 zl=p3"),
+                                 ("partw - none r3", "proc - n m z"), ("procw - n r3 dyn", "proc - n m r3")):
+                        pairs.append(len(ops))
+                        ops += [f"0 {a}", f"1 {b}"]
+                    hs.append(History(ops, {"cfg": line, "kind": kind, "ty": cfg.ty,
+                                            "feats": ["process", "process_partial", "process_partial-none", "integer-product-size"],
+                                            "pairs": pairs}))
         return hs
 
     def nontrivial(self, h):
@@ -1069,6 +1128,43 @@ class C18(Prop):
             for _ in range(4):
                 ops += [f"0 proc - n m r{i + 7}", f"1 proc - n m r{i + 7}", f"2 proc - n m r{i + 7}"]
             hs.append(History(ops, {"cfg": line, "kind": "mixed", "ty": "mixed", "feats": ["large-table"], "twin_slots": 3}))
+        # recycled heap memory: slot 0 is built first; a neighbour instance then processes loud audio and is dropped (its slot
+        # is overwritten by a tiny instance); slot 1 is built from the SAME arguments as slot 0 and most likely receives the
+        # neighbour's freed buffers.  Both are then driven through ratio changes and calls that leave a channel out and take
+        # it back: every sample either instance reads must be one it wrote itself.
+        for i in range(3 * len(gen.ALL) if self.tier == "quick" else 8 * len(gen.ALL)):
+            kind = gen.ALL[i % len(gen.ALL)]
+            nch = rng.randint(2, 3)
+            cfg = gen.gen_cfg(rng, kinds=[kind], nch=nch, max_chunk=200, probe=rng.random() < 0.5)
+            if kind in gen.ASYNC:
+                p = cfg.line.split()
+                p[3] = hx(rng.choice([2.0, 4.0, 10.0]))
+                cfg.line, cfg.maxrel = " ".join(p), unhx(p[3])
+            tiny = "f64 fastin 3ff0000000000000 3ff0000000000000 4 1 1"
+            ops = [cfg.new(0), cfg.new(2)]
+            wide = kind in ("fastout", "sincout")     # (large ratio steps on the fixed-input types run into findings D3/D4)
+            if wide:
+                ops.append(f"2 rel {hx(1 / cfg.maxrel * (1 + 1e-9))} 0")
+            ops += [f"2 proc - n m r{i}"] * 3 + [f"2 new {tiny}", cfg.new(1)]
+            start = len(ops)
+            for rnd in range(rng.randint(2, 3)):
+                both = []
+                if kind in gen.ASYNC:
+                    rel = rng.choice([1 / cfg.maxrel * (1 + 1e-9), 0.3 if cfg.maxrel >= 4 else 0.6, 1.0, cfg.maxrel * (1 - 1e-9)])
+                    if rnd == 0:
+                        rel = 1 / cfg.maxrel * (1 + 1e-9)      # most input per call: the far end of the internal buffers
+                    if not wide:
+                        rel = rng.choice([1.0, 1.01, 0.99])
+                    both.append(f"rel {hx(rel)} 0")
+                m = ["1"] * nch
+                m[rng.randrange(nch)] = "0"
+                m = "".join(m)
+                both += [f"proc {m} n m r{i + 50}"] * rng.randint(1, 2)
+                both += [f"proc - n m r{i + 50}"] * 2
+                for b in both:
+                    ops += [f"0 {b}", f"1 {b}"]
+            hs.append(History(ops, {"cfg": cfg.line, "kind": "mixed", "ty": "mixed", "feats": ["recycled-memory"],
+                                    "twin_slots": 2, "twin_from": start}))
         return hs
 
     def nontrivial(self, h):
@@ -1081,7 +1177,7 @@ class C18(Prop):
         if not h.meta.get("twin_slots"):
             return out
         n = int(h.meta["twin_slots"])
-        k = n
+        k = int(h.meta.get("twin_from", n))
         while k + n - 1 < len(h.ops):
             obs = h.real[k:k + n]
             if "skip" in obs or "missing" in obs:
@@ -1110,11 +1206,17 @@ class C18(Prop):
         d = os.path.join(build.WORK, f"threads-{os.getpid()}")
         os.makedirs(d, exist_ok=True)
         files = []
+        fhs = []
         for k, h in enumerate(hs):
+            if any(str(r).split(" ")[0] in ("abort", "hang") for r in (h.real or [])):
+                # the solo run died in a non-unwinding panic (reported by the checks that own that failure): the threaded
+                # runner shares one process and cannot survive it
+                continue
             p = os.path.join(d, f"h{k}.txt")
             with open(p, "w") as f:
                 f.write(h.text(k))
             files.append(p)
+            fhs.append(h)
         nthreads = 16
         rounds = 1 if self.tier == "quick" else 4
         migrated = 0
@@ -1131,14 +1233,14 @@ class C18(Prop):
                     k = files.index(t[1])
                     step = int(t[2].split("=")[1])
                     res["violations"].append({"property": "C18", "kind": "mixed", "clause": "threaded-run-differs",
-                                              "calm": True, "step": step, "op": hs[k].ops[max(0, step - 1)],
+                                              "calm": True, "step": step, "op": fhs[k].ops[max(0, step - 1)],
                                               "detail": "observation stream differs between the solo run and the "
-                                                        f"{nthreads}-thread run with migration", "ops": hs[k].ops,
-                                              "meta": hs[k].meta})
+                                                        f"{nthreads}-thread run with migration", "ops": fhs[k].ops,
+                                              "meta": fhs[k].meta})
                 elif t[0] == "same":
                     k = files.index(t[1])
                     th = int(t[3].split("=")[1])
-                    hs[k].meta["threads"] = max(hs[k].meta.get("threads", 0), th)
+                    fhs[k].meta["threads"] = max(fhs[k].meta.get("threads", 0), th)
                 elif t[0] == "summary":
                     migrated += int(t[3].split("=")[1])
         shutil.rmtree(d, ignore_errors=True)
@@ -1175,6 +1277,20 @@ class C09(Prop):
                 h.ops.append("0 proc - n-1 n i")
                 h.ops.append("0 proc - n n-1 i")
                 h.ops.append("0 proc 1 n n i" if cfg.nch != 1 else "0 proc 11 n n i")
+            hs.append(h)
+        # the whole permitted ratio range, its ends included, before the first call and in mid-stream (stepped and ramped):
+        # the buffers sized by the constructor must be enough for every ratio the setters accept
+        for i in range(self.n // 3):
+            cfg = gen.gen_cfg(rng, kinds=gen.ASYNC, max_chunk=500, probe=rng.random() < 0.5)
+            if cfg.maxrel <= 1:
+                continue
+            h = gen.gen_valid_history(rng, cfg, rng.randint(4, 20), ratio_changes="any", masks="vary")
+            lo, hi = (1 / cfg.maxrel) * (1 + 1e-9), cfg.maxrel * (1 - 1e-9)
+            first = rng.choice([lo, hi, lo])
+            h.ops.insert(1, f"0 rel {hx(first)} 0")
+            h.ops.insert(2, "0 proc - n m i")
+            h.ops.insert(3, "0 proc - n m i")
+            h.meta["feats"] = sorted(set(h.meta["feats"]) | {"ratio-step", "range-ends"})
             hs.append(h)
         return hs
 
@@ -1683,6 +1799,9 @@ class C04(Prop):
                 if fr["u"] == "0":
                     out.append(viol("C04", h, k, info, "wrote-beyond-reported-count", {"obs": h.real[k][:200]}))
                     break
+                if fr["u"] == "2":
+                    out.append(viol("C04", h, k, info, "reported-frames-never-written", {"obs": h.real[k][:200]}))
+                    break
             if name in ("procw", "partw") and st.startswith("ok") and gb is not None:
                 lens = [int(x) for x in st.split()[1].split(",")] if len(st.split()) > 1 else []
                 if any(l > gb[2] for l in lens):
@@ -1853,7 +1972,7 @@ class C05(Prop):
             "input buffers. The common prefix must agree to rounding. "
             "distinct = (kind pair, config, chunk pair); non-trivial = the two chunkings differ")
     assumptions = COMMON_ASSUME + ["position arithmetic is re-associated by the carry between chunks: streams are compared "
-                                   "with a tolerance of 1e-9 (f64) / 2e-4 (f32) times the peak; FFT streams bit for bit"]
+                                   "with a tolerance of 1e-9 (f64) / 4e-6 (f32, 32 ulp) times the peak; FFT streams bit for bit"]
     n_quick = 110
     n_thorough = 2500
 
@@ -1954,7 +2073,9 @@ class C05(Prop):
         if h.meta.get("fft"):
             tol = 0.0
         else:
-            tol = 2e-4 if ty == "f32" else 1e-9
+            # f32: positions are kept in f64 whatever the sample type, so two chunkings hand (nearly) the same fraction to the
+            # same f32 blend: measured <= 2 ulp of the peak on the unchanged tree; 32 ulp allowed
+            tol = 4e-6 if ty == "f32" else 1e-9
         ref = st["0"]
         # Nearest kernels are discontinuous in the evaluation instant: where the exact instant sits on a tie, the
         # rounding of the position legitimately picks either neighbour. Those frames are skipped.
@@ -2083,6 +2204,35 @@ class C06(Prop):
                 ops += ["0 proc - n m i dump"] * rng.randint(1, 3)
             hs.append(History(ops, {"cfg": cfg.line, "kind": kind, "ty": "f64", "feats": sorted(feats),
                                     "rc": "calm" if kind == "sincin" else "any"}))
+        # the fixed-output types over the WHOLE permitted range (max relative 10): step to one end, ramp to the other and
+        # back, every blend type: the frames asked for must cover every position such a ramp reaches
+        combos = [("fastout", None)] + [("sincout", it) for it in range(4)]
+        for i in range(max(10, self.n // 8)):
+            kind, it = combos[i % len(combos)]
+            for _ in range(20):
+                if kind == "fastout":
+                    cfg = gen.gen_cfg(rng, kinds=[kind], ty="f64", nch=1, max_chunk=96)
+                else:
+                    cfg = gen.gen_cfg(rng, kinds=[kind], ty="f64", nch=1, max_chunk=96, probe=True, sinc_lens=[8, 16, 32],
+                                      interp=it)
+                if 0.25 <= cfg.ratio <= 4:
+                    break
+            else:
+                continue
+            p = cfg.line.split()
+            p[3] = hx(10.0)
+            if kind == "fastout":
+                p[4] = "3"
+            else:
+                p[-1] = "lprobe"
+            cfg.line, cfg.maxrel = " ".join(p), 10.0
+            lo, hi = 0.1 * (1 + 1e-9), 10.0 * (1 - 1e-9)
+            a, b = (lo, hi) if i % 2 == 0 else (hi, lo)
+            ops = [cfg.new(0)] + ["0 proc - n m i dump"] * 2 + [f"0 rel {hx(a)} 0"] + ["0 proc - n m i dump"] * 2
+            ops += [f"0 rel {hx(b)} 1"] + ["0 proc - n m i dump"] * 3 + [f"0 rel {hx(a)} 1"] + ["0 proc - n m i dump"] * 3
+            ops += [f"0 rel {hx(rng.uniform(0.2, 5.0))} 1"] + ["0 proc - n m i dump"] * 2
+            hs.append(History(ops, {"cfg": cfg.line, "kind": kind, "ty": "f64", "feats": ["ratio-ramp", "ratio-step", "full-range"],
+                                    "rc": "any"}))
         # every generic valid history also contributes its stale-read flags
         hs += valid_mix(self, rng, self.n // 2)
         return hs
@@ -2194,12 +2344,19 @@ class C11(Prop):
 
     def scenarios(self, rng):
         hs = []
-        for i in range(self.n):
+        # every type with an all-false mask and with a single active channel (first / last), then random masks
+        forced = [(k, m) for k in gen.ALL for m in ("none", "first", "last")]
+        for i in range(self.n + len(forced)):
             nch = rng.randint(1, 8)
-            cfg = gen.gen_cfg(rng, nch=nch, max_chunk=200, probe=rng.random() < 0.6)
+            kinds = gen.ALL
+            if i < len(forced):
+                nch, kinds = rng.randint(2, 4), [forced[i][0]]
+            cfg = gen.gen_cfg(rng, kinds=kinds, nch=nch, max_chunk=200, probe=rng.random() < 0.6)
             mask = "".join(rng.choice("01") for _ in range(nch))
             if rng.random() < 0.08:
                 mask = "0" * nch
+            if i < len(forced):
+                mask = {"none": "0" * nch, "first": "1" + "0" * (nch - 1), "last": "0" * (nch - 1) + "1"}[forced[i][1]]
             p = cfg.line.split()
             one = list(p)
             if cfg.kind in ("fastin", "fastout"):
@@ -2240,6 +2397,17 @@ class C11(Prop):
                     for s in range(2 + nch):
                         ops.append(f"{s} chunk {n}")
                     feats.add("chunk")
+            if i < len(forced) or rng.random() < 0.25:
+                # a second stream after reset() on the same instances, this time WITHOUT a mask: every channel is active
+                # again and, after the reset, comparable with its single-channel twin
+                for s in range(2 + nch):
+                    ops.append(f"{s} reset")
+                for _ in range(rng.randint(2, 4)):
+                    ops.append(f"0 proc - n m {sg}")
+                    ops.append(f"1 proc - n m {sg}")
+                    for c in range(nch):
+                        ops.append(f"{2 + c} proc - n m {sg} co={c}")
+                feats.add("unmasked-after-reset")
             hs.append(History(ops, {"cfg": cfg.line, "kind": cfg.kind, "ty": cfg.ty, "feats": sorted(feats),
                                     "mask": mask, "nch": nch}))
         # sinc types at a ratio far above the oversampling factor: consecutive output frames fall on the SAME fine-grid point,
@@ -2296,6 +2464,9 @@ class C11(Prop):
                 if len(grp) < 2 + nch or any(g[3] is None for g in grp):
                     break
                 f0, f1 = grp[0][3], grp[1][3]
+                # the mask this call was made with (the unmasked second stream after reset(): every channel active)
+                mtok = h.ops[kk].split()[2]
+                mask = h.meta["mask"] if mtok != "-" else "1" * nch
                 if not (f0["status"].startswith("ok") and f1["status"].startswith("ok")):
                     i += 2 + nch
                     continue
@@ -2352,6 +2523,22 @@ class C17(Prop):
                 ops.append(op)
                 ops.append(retarget(op, 1))
             hs.append(History(ops, {"cfg": cfg.line, "kind": cfg.kind, "ty": "f32/f64", "feats": base.meta["feats"]}))
+        # every asynchronous type with every blend / polynomial degree once, LONG calls (read positions in the thousands, fine
+        # grid positions in the hundred thousands) at a ratio that is not a power of two, full-band noise: position arithmetic
+        # narrowed to the sample type shows here and nowhere else
+        combos = [(k, d) for k in ("fastin", "fastout") for d in range(5)] + [(k, it) for k in ("sincin", "sincout") for it in range(4)]
+        for kind, b in combos:
+            ratio = rng.choice([1.2, 48000 / 44100, 0.9, 1.37, 44100 / 48000])
+            chunk = rng.choice([1024, 2048, 1500])
+            if kind.startswith("fast"):
+                line = f"f32 {kind} {hx(ratio)} {hx(1.1)} {b} {chunk} 1"
+            else:
+                line = f"f32 {kind} {hx(ratio)} {hx(1.1)} {b} 64 128 {hx32(0.9)} {rng.randint(0, 5)} {chunk} 1 auto"
+            sg = "r%d" % rng.randint(0, 999)
+            ops = [f"0 new {line}", "1 new " + line.replace("f32", "f64", 1)]
+            for _ in range(3):
+                ops += [f"0 proc - n m {sg} dump", f"1 proc - n m {sg} dump"]
+            hs.append(History(ops, {"cfg": line, "kind": kind, "ty": "f32/f64", "feats": ["proc", "long-calls"]}))
         return hs
 
     def oracle(self, h):
@@ -2481,6 +2668,24 @@ class C14(Prop):
                 ops.insert(rng.randint(2, max(3, int(n / per_in) - 2)), f"0 proc - n m k{n} dump oc=2")
             hs.append(History(ops, {"cfg": line, "kind": kind, "ty": ty, "feats": ["impulse", "rejected-call", "sub-block-chunks"],
                                     "n": n, "ratio": ro / ri}))
+        # FFT types, request a few frames beyond a whole number of sub-chunks of whole units (each integer division in the
+        # block arithmetic drops a different remainder there), up- and down-sampling
+        for i in range(8):
+            kind = ["fftout", "fftin"][i % 2]
+            ri, ro = [(24000, 48000), (48000, 16000), (16000, 48000), (3, 2), (2, 3), (7, 3), (1, 3), (48000, 24000)][i]
+            g = math.gcd(ri, ro)
+            unit = (ro // g) if kind == "fftout" else (ri // g)
+            sub = rng.choice([2, 3, 4])
+            chunk = sub * unit * rng.randint(20, 200) + rng.randint(1, sub - 1)
+            ty = rng.choice(["f64", "f32"])
+            line = f"{ty} {kind} {ri} {ro} {chunk} {sub} 1"
+            fi, fo = fft_sizes(ri, ro, chunk // sub, kind == "fftout")
+            n = rng.randint(50, 2500)
+            per_in = chunk if kind == "fftin" else chunk * ri / ro
+            ncalls = int((n + 3 * fi + 100) / per_in) + 3
+            hs.append(History([f"0 new {line}"] + [f"0 proc - n m k{n} dump"] * ncalls,
+                              {"cfg": line, "kind": kind, "ty": ty, "feats": ["impulse", "sub-chunk-remainder"], "n": n,
+                               "ratio": ro / ri}))
         # large FFT blocks (small-gcd rate pairs, big chunks): the delay must stay half a block whatever the block length
         for (ri, ro, chunk) in [(44100, 44110, 64), (48000, 44090, 64), (44100, 48000, 8192), (1000, 1001, 5000)][:2 if self.tier == "quick" else 4]:
             kind = rng.choice(gen.FFT)
@@ -2512,6 +2717,13 @@ class C14(Prop):
             if fr and fr["g"] and name != "proc":
                 delay = fr["g"][4]
             if fr and fr["status"] in ("panic", "abort"):
+                return out
+            if fr and name == "proc" and fr.get("u") == "2":
+                # frames handed back as output that the call never wrote: the clip found by skipping output_delay() frames
+                # of the concatenated stream is not the resampled clip
+                v = viol("C14", h, k, inf, "stream-contains-frames-never-written", {"obs": h.real[k][:160]})
+                v["ops"] = h.ops[:3] + ["… (%d identical calls)" % (len(h.ops) - 1)]
+                out.append(v)
                 return out
         e = sum(v * v for v in y)
         if e <= 0 or delay is None:
@@ -2586,7 +2798,7 @@ def interp_bound(it, f_cycles, osf):
 
 class ToneProp(Prop):
     stop = False
-    n_quick = 40
+    n_quick = 54
     n_thorough = 600
 
     def scenarios(self, rng):
@@ -2599,10 +2811,16 @@ class ToneProp(Prop):
             big32 = len(hs) < 4      # the first four streams: f32, long calls (thousands of input frames per call), high tone
             perwin = None if len(hs) < 4 or len(hs) >= 22 else (len(hs) - 4) % 6    # then three streams per window function
             pwj = (len(hs) - 4) // 6
+            # then twelve FFT streams: every type x {whole blocks, two sub-chunks minus one frame} x {exact, longer inputs}
+            fftk = len(hs) - 22 if 22 <= len(hs) < 34 else None
+            # stopband check only: eight up-sampling streams (images), every blend type, steep windows, tone high in the band
+            imgk = len(hs) - 34 if self.stop and 34 <= len(hs) < 42 else None
             if big32:
                 fam, ty = 0.0, "f32"
-            if perwin is not None:
+            if perwin is not None or imgk is not None:
                 fam, ty = 0.0, "f64"
+            if fftk is not None:
+                fam, ty = 1.0, ("f64" if fftk % 4 else "f32")
             if fam < 0.7:
                 kind = rng.choice(["sincin", "sincout"])
                 ratio = math.exp(rng.uniform(math.log(1 / 8), math.log(8))) if rng.random() < 0.6 else rng.choice([0.5, 2.0, 48000 / 44100, 44100 / 48000, 1.0, 3.0, 1 / 3])
@@ -2612,15 +2830,25 @@ class ToneProp(Prop):
                 osf = rng.choice([128, 256, 1024, 2048]) if it in (2, 3) else rng.choice([16, 64, 128, 256])
                 if big32:
                     kind = ["sincin", "sincout", "sincout", "sincin"][len(hs)]
+                    sl = [72, 136, 104, 200][len(hs)]      # = 8 mod 16: the remainder handling of the widest SIMD kernels
+                    win = [4, 5, 4, 5][len(hs)]            # slowly tapering windows: the outermost taps still carry weight
                     ratio = rng.choice([48000 / 44100, 44100 / 48000, 1.0, 0.8])
                     it, osf = rng.choice([0, 1, 2]), 256
                 if perwin is not None:
                     # each of the six windows with a short filter, the best interpolation and a tone close to the band edge:
                     # the window's own leakage / rejection figure is what limits the result
                     win, sl, it, osf = perwin, (64 if not self.stop else 128), 0, 256
+                    if not self.stop:
+                        # the three streams of a window use the three polynomial blends (fine grids: the blend's own error bound
+                        # stays below the window's leakage figure)
+                        it, osf = [(0, 256), (1, 256), (2, 2048)][pwj]
                     ratio = rng.choice([1.37, 2.0 + 1 / 7, 1.2]) if not self.stop else rng.choice([0.5, 0.4])
+                if imgk is not None:
+                    win, sl = [3, 2, 1, 0][imgk // 2], 128
+                    it, osf = [(1, 256), (0, 256), (2, 2048), (3, 128), (1, 128), (0, 64), (3, 64), (1, 256)][imgk]
+                    ratio = rng.choice([48000 / 44100, 1.5, 2.0 + 1 / 7, 3.0])
                 cc = calc_cutoff(sl, win)
-                fcut = cc if rng.random() < 0.6 else rng.choice([0.9, 0.8, 0.95 * cc])
+                fcut = cc if rng.random() < 0.6 or imgk is not None else rng.choice([0.9, 0.8, 0.95 * cc])
                 fcut = struct_f32(fcut)
                 lowmin = min(1.0, ratio)
                 halfw = (1 - cc) / lowmin
@@ -2650,9 +2878,9 @@ class ToneProp(Prop):
                             f_in = 0.5 * min(0.998, lo + 0.003 + 0.015 * pwj + rng.uniform(0, 0.008))
                     else:
                         # upsampling: images of an in-band tone fall beyond the edge when f_cutoff <= calculate_cutoff
-                        if fcut > cc + 1e-9:
+                        if fcut > struct_f32(cc):      # (the f32 value calculate_cutoff returns)
                             continue
-                        f_in = 0.5 * rng.uniform(0.05, 0.9) * (fcut - halfw if fcut - halfw > 0.1 else 0.1)
+                        f_in = 0.5 * rng.uniform(0.05 if imgk is None else 0.6, 0.9) * (fcut - halfw if fcut - halfw > 0.1 else 0.1)
                 L = sl
                 n_in = int(6 * L + 3000 / min(1.0, ratio) / 1.0)
                 n_in = min(n_in, 40000)
@@ -2664,14 +2892,21 @@ class ToneProp(Prop):
             else:
                 kind = rng.choice(gen.FFT)
                 ri, ro = rng.choice([(44100, 48000), (48000, 44100), (48000, 96000), (96000, 48000), (16000, 48000),
-                                     (48000, 16000), (2, 3), (3, 2), (1, 1)])
+                                     (48000, 16000), (2, 3), (3, 2), (1, 1), (96000, 44100), (48000, 32000)])
+                if fftk is not None:
+                    kind = gen.FFT[fftk % 3]
+                    ri, ro = [(48000, 16000), (44100, 48000), (96000, 44100), (3, 2), (48000, 32000), (2, 3),
+                              (96000, 48000), (48000, 44100), (16000, 48000), (48000, 16000), (3, 2), (96000, 44100)][fftk]
+                    if self.stop and ro >= ri:
+                        ri, ro = ro, ri
                 g = math.gcd(ri, ro)
                 kmul = rng.choice([1, 2, 4]) if max(ri, ro) // g > 100 else rng.choice([64, 128, 256, 512])
                 fi, fo = kmul * ri // g, kmul * ro // g
                 ratio = ro / ri
                 chunk = fi if kind != "fftout" else fo
                 sub = 1
-                if kind != "fftio" and (ri // g if kind == "fftin" else ro // g) > 1 and rng.random() < 0.5:
+                if kind != "fftio" and (ri // g if kind == "fftin" else ro // g) > 1 and \
+                        (rng.random() < 0.5 if fftk is None else (fftk // 3) % 2 == 1):
                     # same block sizes, but a chunk that is NOT a whole number of blocks (two sub-chunks, one frame short): the
                     # number of blocks per call varies and frames are carried over between calls
                     sub, chunk = 2, 2 * chunk - 1
@@ -2697,6 +2932,8 @@ class ToneProp(Prop):
             # half of the streams hand over buffers that are longer than needed (allowed by the API; the frames beyond
             # input_frames_next() are the true next frames of the tone and are handed over again by the next call)
             insz = "n" if rng.random() < 0.5 else rng.choice(["m", "m+%d" % rng.randint(1, 1500), "n+%d" % rng.randint(1, 1500)])
+            if fftk is not None:
+                insz = "n" if (fftk // 6) % 2 == 0 else ["m+%d" % rng.randint(1, 1500), "n+%d" % rng.randint(1, 1500)][fftk % 2]
             ops = [f"0 new {line}"] + [f"0 proc - {insz} m s{hx(f_in)} dump"] * ncalls
             feats_extra = [] if insz == "n" else ["oversized-input"]
             if meta["fam"] == "sinc" and rng.random() < 0.5:
